@@ -290,11 +290,15 @@ class FSec(Family):
         blocks = []
         for k in sorted(by):
             out = []
-            for x in _pick(rng, by[k], 4 * scale, lambda x: (x["nbits"], x["bearer"], x["dir"])):
+            # Two keys per block, used alternately: at any time some goroutines work under the SAME key on different
+            # data (state kept per key shows) and some under DIFFERENT keys (state kept for "the" key shows).
+            keys = [[rng.randrange(256) for _ in range(16)] for _ in range(2)]
+            for j, x in enumerate(_pick(rng, by[k], 6 * scale, lambda x: (x["nbits"], x["bearer"], x["dir"]))):
                 # the case determines the call completely: explicit key, COUNT and data (the family driver draws
                 # the unspecified ones from its seeded generator)
                 y = dict(x)
-                if not y["key"]: y["key"] = [rng.randrange(256) for _ in range(16)]
+                y["grp"], y["seq"] = 0, 0
+                if not y["key"] or j < 4: y["key"] = keys[j % 2]
                 if not y["cnt"]: y["cnt"] = [rng.randrange(256) for _ in range(4)]
                 raw = y["op"] in ("GetKeyStream", "Zuc")
                 n = 16 if raw else (y["nbits"] + 7) // 8
@@ -385,10 +389,38 @@ class F09(Family):
         return "\n".join(L) + "\n"
 
 
+# ------------------------------------------------------------------ shared decoded messages (codec), live receive buffers
+class FMsg(Family):
+    """harness/cmd/conc/shared.go: messages decoded before the goroutines start are read by all of them (projection,
+    re-encoding: cmd/codec's Shared events, judged by Trace_C19) while the owner of each receive buffer ciphers it in place.
+    The pool is the codec family's TLC-generated case list (valid inputs), set by the check."""
+    name, pid, trace, shards, driver = "fmsg", "C19", "Trace_C19", 6, None
+    gen = None
+
+    def pool(self, c, sd):
+        class R: distinct = 0; generated = 0; wall = 0.0
+        return [], R()
+
+    def plan(self, pool, rng, scale, wide=False):
+        by = {}
+        for g in pool:
+            by.setdefault(g["m"], []).append(g)
+        if len(by) < 20: raise Infra("the codec generator printed valid inputs for %d message types only" % len(by))
+        picked = []
+        for m in sorted(by):      # every message type, every optional element the generator has for it
+            picked += _pick(rng, by[m], 4 * scale, lambda g: json.dumps([s["p"] for s in g["w"]["opt"]]))
+        rng.shuffle(picked)
+        cases = [dict(k="dec", entry="plain", inp=g["inp"]) for g in picked]
+        return [("shared-%d" % k, cases[k:k + 12]) for k in range(0, len(cases), 12)]
+
+    def verdict(self, t):
+        return ("Shared", t[2])
+
+
 def families(with_sec=True, with_ie=True):
     fs = [F17(), F12(), F13(), F15(), F16(), F18()]
     if with_sec:
         fs += [FSec("f06", "C06", "Trace_C06", "MC_C06_gen"), FSec("f07", "C07", "Trace_C07", "MC_C07_gen")]
     if with_ie:
         fs += [F09()]
-    return fs
+    return fs + [FMsg()]
